@@ -149,6 +149,34 @@ for _f in FUNCS:
     make_homomorphism(_f)
 
 
+@cond('C12.sum.of-inventories', quick=240, thorough=900,
+      bounds='as C12.sum; the per-account sums taken as an inventory-typed subquery column and summed again: SELECT units(sum(inv)), '
+             'cost(sum(inv)), sum(inv), count(inv) FROM (SELECT account, sum(position) AS inv ... GROUP BY account): each equals the '
+             'function of the Beancount inventory sum of the selection; the inner query alone still returns the per-account sums',
+      symbolic='selection bits, account bits, transaction split', enumerated='amount pattern', params=PARAMS)
+def sum_of_inventories(**kw):
+    entries, posts, flags, accs = _setup(kw)
+    conn = _conn(entries)
+    selected = [position.Position(p.units, p.cost) for p, f in zip(posts, flags) if f]
+    inner = "SELECT account, sum(position) AS inv FROM #postings WHERE posting_flag = '!' GROUP BY account"
+    rows = _q(conn, f"SELECT units(sum(inv)) AS u, cost(sum(inv)) AS c, sum(inv) AS s, count(inv) AS n FROM ({inner})")
+    if not selected:
+        return 'ok' if rows == [] else 'row-for-empty-selection'
+    whole = inv_sum(selected)
+    if len(rows) != 1:
+        return 'row-count'
+    u, c, s, n = rows[0]
+    if s != whole:
+        return 'sum-of-partial-sums'
+    if u != whole.reduce(convert.get_units):
+        return 'units-of-sum-of-partial-sums'
+    if c != whole.reduce(convert.get_cost):
+        return 'cost-of-sum-of-partial-sums'
+    if n != len({('Assets:A' if a else 'Assets:B') for a, f in zip(accs, flags) if f}):
+        return 'group-count'
+    return 'ok'
+
+
 # ---------------------------------------------------------------------------
 # running balance
 
@@ -159,12 +187,14 @@ BALANCE_TARGETS = [
     'balance, units(balance) AS u, position, balance AS again, cost(balance) AS c',
     "balance, account IN (SELECT account FROM #postings) AS x, position, balance AS again",
     "balance, account IN (SELECT account FROM #postings WHERE empty(balance) IS NOT NULL) AS x, position, balance AS again",
+    # balance consulted only as a later argument of a function whose first argument is NULL on some rows
+    "only(cost_currency, balance) AS o, position, cost_currency AS cc",
 ]
 
 
 @cond('C12.balance', quick=300, thorough=900,
       bounds='as C12.sum; targets referencing `balance` 0, 1, 2 or 3 times (also with a subquery scan of #postings between two '
-             'references); WHERE does not consult it: every reported balance is the inventory sum of the selected positions up '
+             'references, and only as the second argument of only(cost_currency, balance)); WHERE does not consult it: every reported balance is the inventory sum of the selected positions up '
              'to and including the row, the last one equals sum(position) of the selection',
       symbolic='selection bits, transaction split, postings with / without metadata (equal postings compare equal without)',
       enumerated='amount pattern, target list',
@@ -178,7 +208,8 @@ def balance(targets, **kw):
     selected = [position.Position(p.units, p.cost) for p, f in zip(posts, flags) if f]
     if len(rows) != len(selected):
         return 'row-count'
-    names = [t.strip().split(' AS ')[-1].split('(')[0] for t in tlist.split(', ') if not t.startswith('2019')]
+    names = ['o', 'position', 'cc'] if tlist.startswith('only(') else \
+        [t.strip().split(' AS ')[-1].split('(')[0] for t in tlist.split(', ') if not t.startswith('2019')]
     running = inventory.Inventory()
     for row, pos in zip(rows, selected):
         running.add_position(pos)
@@ -191,6 +222,11 @@ def balance(targets, **kw):
                 return 'cost-of-balance'
             if name == 'position' and cell != pos:
                 return 'position'
+            if name == 'o':
+                cc = row[names.index('cc')]
+                want_o = None if cc is None else running.get_currency_units(cc)
+                if cell != want_o:
+                    return 'balance-as-function-argument'
     total = _q(conn, "SELECT sum(position) AS s FROM #postings WHERE posting_flag = '!'")
     if selected and total[0][0] != running:
         return 'last-balance-differs-from-sum'
